@@ -46,6 +46,9 @@ type params struct {
 	// replayed response is not yet written out).
 	Warm  []reqSpec
 	Outer bool
+	// SharedCtx: the warm requests and the first concurrent request are served by ONE fasthttp.RequestCtx, reset
+	// between requests as fasthttp does (anything the middleware keeps that aliases request buffers is overwritten)
+	SharedCtx bool
 }
 
 // injected storage: yields at every call, may fail
@@ -158,8 +161,9 @@ func runScenario(p params) func(e *schedx.Exec) *schedx.Outcome {
 			}
 			app.Use(idempotency.New(cfg))
 			h := func(c fiber.Ctx) error {
-				rid := c.Get("X-Req")
-				key := c.Get("X-Idempotency-Key")
+				// copies: these strings are used as map keys beyond the request (they alias the request buffers)
+				rid := strings.Clone(c.Get("X-Req"))
+				key := strings.Clone(c.Get("X-Idempotency-Key"))
 				verifrt.YieldOn("handler.enter", hs)
 				hs.started[key]++
 				hs.ranFor[rid]++
@@ -181,15 +185,22 @@ func runScenario(p params) func(e *schedx.Exec) *schedx.Outcome {
 			app.Post("/", h)
 			app.Get("/", h)
 			handler := app.Handler()
+			var sharedCtx fasthttp.RequestCtx
+			useShared := p.SharedCtx
 			do := func(i int, rs reqSpec) {
 				req := fx.Req(rs.Method, "http://example.com/", "X-Req", rs.ID)
 				if rs.Key != "" {
 					req.Header.Set("X-Idempotency-Key", rs.Key)
 				}
-				var fctx fasthttp.RequestCtx
+				var own fasthttp.RequestCtx
+				fctx := &own
+				if useShared && (len(warmObs) < len(p.Warm) || i == 0) {
+					fctx = &sharedCtx // warm phase, and the first of the concurrent requests
+				}
 				mark := len(faultLog)
-				fx.CallInto(&fctx, handler, req, nil, false)
+				fx.CallInto(fctx, handler, req, nil, false)
 				o := respObs{ID: rs.ID, Status: fctx.Response.StatusCode(), Body: string(fctx.Response.Body()), CT: string(fctx.Response.Header.ContentType())}
+				_ = own
 				for _, v := range fctx.Response.Header.PeekAll("X-A") {
 					o.XA = append(o.XA, string(v))
 				}
@@ -477,6 +488,10 @@ func main() {
 			xplore.Bounds{0, 2, 0, 0}, xplore.Bounds{0, -1, 0, 0}, true),
 		mk("replay-a-b-memory", params{Warm: warmAB, Outer: true, Reqs: []reqSpec{rp("repA", keyA), rp("repB", keyB)}, Storage: "memory", Locker: "default"},
 			xplore.Bounds{0, 2, 0, 0}, xplore.Bounds{0, -1, 0, 0}, true),
+		mk("replay-a-b-shared-ctx", params{Warm: warmAB, Outer: true, SharedCtx: true, Reqs: []reqSpec{rp("repA", keyA), rp("repB", keyB)}, Storage: "injected", Locker: "default"},
+			xplore.Bounds{0, 2, 0, 0}, xplore.Bounds{0, -1, 0, 0}, true),
+		mk("replay-a-b-shared-ctx-memory", params{Warm: warmAB, Outer: true, SharedCtx: true, Reqs: []reqSpec{rp("repA", keyA), rp("repB", keyB), rp("repA2", keyA)}, Storage: "memory", Locker: "default"},
+			xplore.Bounds{0, 2, 0, 0}, xplore.Bounds{0, 3, 0, 0}, false),
 		mk("replay-a-b-a-keep", params{Warm: warmAB, Outer: true, Reqs: []reqSpec{rp("repA1", keyA), rp("repB", keyB), rp("repA2", keyA)}, Storage: "injected", Locker: "default", Keep: []string{"X-A"}},
 			xplore.Bounds{0, 2, 0, 0}, xplore.Bounds{0, 3, 0, 0}, false),
 		mk("replay-a-first-b", params{Warm: warmAB[:1], Outer: true, Reqs: []reqSpec{rp("repA", keyA), rp("firstB", keyB), {ID: "nokey", Method: "POST"}}, Storage: "injected", Locker: "default"},
